@@ -279,7 +279,7 @@ func storageList(x *Exec, st *State, c *CallCtx) []Outcome {
 	return x.havocCall(st, c, "Storage.List (result arbitrary, storage unchanged)")
 }
 
-// LoadByNodeId: success returns n >= 1 fresh copies of stored node records whose
+// LoadByNodeId: success returns n >= 0 fresh copies of stored node records whose
 // NodeId equals the requested one.
 func storageLoadByNodeId(x *Exec, st *State, c *CallCtx) []Outcome {
 	st.StorageOps++
@@ -308,7 +308,8 @@ func storageLoadByNodeId(x *Exec, st *State, c *CallCtx) []Outcome {
 	et := slT.Underlying().(*types.Slice).Elem()
 	nt := et.Underlying().(*types.Pointer).Elem()
 	n := x.fresh(st, "nnodes", SInt)
-	st.assume(Ge(n, IntT(1)))
+	// (the interface asks for ErrNotFound when nothing matches, but a success with no records is not excluded)
+	st.assume(Ge(n, IntT(0)))
 	wmBefore := Add(st.AllocBase, IntT(int64(st.AllocN)))
 	wmB := x.define(st, "wmB", wmBefore)
 	sref := x.alloc(st)
